@@ -931,7 +931,19 @@ def run(ctx):
     if any(len(p) < 2 for p in progs):
         raise RuntimeError("a worker has an empty operation list: extraction is broken")
     groups = pick_groups(NW, ctx.pick(40, 400), rnd)
-    res, cex = model_check(ctx, progs, mnames, groups, "all interleavings of all pairs + %d triples of the real workers (%s operations)" % (len(groups) - NW * (NW - 1) // 2, "fine" if fine else "coarse"))
+    try:
+        res, cex = model_check(ctx, progs, mnames, groups, "all interleavings of all pairs + %d triples of the real workers (%s operations)" % (len(groups) - NW * (NW - 1) // 2, "fine" if fine else "coarse"))
+    except tlc.TLCError as e:
+        if not (fine and "StackOverflow" in str(e)):
+            raise
+        # system-call granularity makes the longest workers' operation lists (natural pictures) too deep for TLC's
+        # recursive evaluation of RunW / RunSeq even with a 512 MB thread stack: fall back to the coarse lists
+        ctx.coverage["fine_operation_lists"] = "TLC stack overflow; coarse operation lists used instead"
+        fine = False
+        built = [build_prog(r["cold"], r["warm"], fine) for r in exl]
+        progs = [b[0] for b in built]
+        infos = [b[1] for b in built]
+        res, cex = model_check(ctx, progs, mnames, groups, "all interleavings of all pairs + %d triples of the real workers (coarse operations)" % (len(groups) - NW * (NW - 1) // 2))
     model_failures = []
     if cex:
         model_failures.append(cex)
